@@ -77,6 +77,17 @@ fn render_download(d: &DownloadLogoResponse) -> String {
 const XML_OK: &str = "3c3f786d6c2076657273696f6e3d22312e30223f3e3c7376672f3e"; // <?xml version="1.0"?><svg/>
 const PNG_HDR: &str = "89504e470d0a1a0a";
 
+/// payload attached to Send / SendFrom: arbitrary bytes, also none at all, a literal `{}` and JSON text
+fn gen_payload(rng: &mut Rng) -> String {
+    match rng.below(9) {
+        0 => String::new(),
+        1 => "{}".to_string(),
+        2 => "{\"k\":1}".to_string(),
+        3 => "null".to_string(),
+        n => format!("p{}", n % 4),
+    }
+}
+
 impl Cw20Scen {
     pub fn new() -> Self {
         Cw20Scen { deps: new_deps(), env: mock_env(), pool: vec![], inited: false, legacy: false, seed: 0, wide: false }
@@ -556,6 +567,11 @@ impl Scenario for Cw20Scen {
         self.deps = new_deps();
         self.env = mock_env();
         self.pool = a.list("pool").into_iter().map(Addr::unchecked).collect();
+        // the token contract's own address is a valid address like any other and takes part as holder, recipient,
+        // owner and spender: it is the last address of the pool
+        if let Some(me) = self.pool.last() {
+            self.env.contract.address = me.clone();
+        }
         self.inited = false;
         self.legacy = false;
         self.seed = a.u64("seed");
@@ -645,7 +661,7 @@ impl Scenario for Cw20Scen {
         } else if k < 32 {
             let to = self.gen_addr(rng);
             let amt = self.amount_near(rng, self.bal(&snd));
-            format!("exec {snd} send contract={to} amt={amt} payload=p{}", rng.below(4))
+            format!("exec {snd} send contract={to} amt={amt} payload={}", gen_payload(rng))
         } else if k < 44 {
             // mostly by the minter
             let snd = match &minter {
@@ -702,9 +718,9 @@ impl Scenario for Cw20Scen {
                 0 => format!("exec {spender} transfer_from owner={owner_s} to={} amt={amt}", self.gen_addr(rng)),
                 1 => format!("exec {spender} burn_from owner={owner_s} amt={amt}"),
                 _ => format!(
-                    "exec {spender} send_from owner={owner_s} contract={} amt={amt} payload=p{}",
+                    "exec {spender} send_from owner={owner_s} contract={} amt={amt} payload={}",
                     self.gen_addr(rng),
-                    rng.below(4)
+                    gen_payload(rng)
                 ),
             }
         }
